@@ -1,6 +1,6 @@
 SPECIFICATION Spec
 CONSTANTS IDs = {1, 2}  MaxDg = 2  MaxRep = 1  MaxEnt = 2  Idle = 1  MaxT = 3  MaxFault = 1
   Dsts = {1}  Allow = {1}  HookMap <- HookId  AclCap = 1
-  GuardClosedInInit = TRUE  GuardCloseOnce = TRUE  TouchOnReply = TRUE  CheckEveryDgram = TRUE  StampOwnID = TRUE  LockAcrossDial = FALSE  FailPathCloses = TRUE  VetRewritten = TRUE  SplitExit = FALSE  GenHist = FALSE
+  GuardClosedInInit = TRUE  GuardCloseOnce = TRUE  TouchOnReply = TRUE  CheckEveryDgram = TRUE  StampOwnID = TRUE  LockAcrossDial = FALSE  FailPathCloses = TRUE  FragHdr = FALSE  VetWritten = TRUE  VetRewritten = TRUE  SplitExit = FALSE  GenHist = FALSE
 INVARIANTS NoViolation7 NoViolation8 DeleteOwn SockOwner ClosedEntriesHaveClosedSockets
 CHECK_DEADLOCK FALSE
